@@ -252,6 +252,7 @@ func (Engine) Run(c *simkit.Choices, x *simkit.Ctx) *simkit.Violation {
 		}
 	}
 	for i := range ref {
+		x.ObserveStr(model.Render(got[i]))
 		if !model.DeepEq(ref[i], got[i]) {
 			return &simkit.Violation{Kind: "value-differs", Site: site,
 				Detail: fmt.Sprintf("document %d: without cache %s | with EnableKeyCache(%d) %s", i, model.Render(ref[i]), capacity, model.Render(got[i])), Scenario: sc}
